@@ -72,4 +72,6 @@ def clipOp (a : V) : R V := do
   let xs ← (← a.get "xs").asFs
   pure (V.fs (xs.map (Lerax.Rescale.clip lo hi)))
 
+def wrappersOps : List (String × (V → R V)) := [("wrap_expect", wrapExpectOp), ("rescale", rescaleOp), ("clip", clipOp)]
+
 end Lerax.Driver
